@@ -127,7 +127,10 @@ def run(ctx):
             e = json.loads(ex[min(at, len(ex) - 1)])
             return ("ps5/lifecycle/%s" % e.get("e"), "parallel sample sort step life-cycle: event %s (thread %s, step %s, value %s) is not allowed by PS5I at this point "
                     "(step touched after release / counter or deletion out of order)" % (e.get("e"), e.get("t"), e.get("s"), e.get("n")))
-        validate_traces(ctx, PD, "Trace_PS5", "Trace_PS5_lcp.cfg" if lcp else "Trace_PS5.cfg", hf, classify_steps, shards=NCPU, max_rejects=8, timeout=3000)
+        # PS5I is implementation-shaped: what it rejects but the property-level Trace_PS5A accepts (no operation on a deleted step, no double deletion,
+        # everything deleted at return) is DRIFT
+        validate_traces(ctx, PD, "Trace_PS5", "Trace_PS5_lcp.cfg" if lcp else "Trace_PS5.cfg", hf, classify_steps, shards=NCPU, max_rejects=8, timeout=3000,
+                        property_level=(PD, "Trace_PS5A", "Trace_PS5A.cfg"))
     # 4. results against StrSortA
     calls = [x for x in tl if '"e":"ssort"' in x or '"e":"crash"' in x]
     ctx.cov["sort_calls_validated"] = len(calls)
